@@ -75,7 +75,7 @@ def build_model(full=False):
             sh(["coq_makefile", "-f", "_CoqProject", "-o", "Makefile"], cwd=COQ)
         if full:
             sh(["make", "clean"], cwd=COQ)
-        rc, out = sh(["make", "-j16"], cwd=COQ, timeout=3000)
+        rc, out = sh(["timeout", "1200", "make", "-j16"], cwd=COQ, timeout=1300)
         if rc != 0:
             return False, out
         ext_v = os.path.join(COQ, "Extract", "Extract.v")
